@@ -672,6 +672,14 @@ func dependsOnCut(v ssa.Value, isTarget func(ssa.Value) bool, cut func(ssa.Value
 			if a, ok := x.X.(*ssa.Alloc); ok && allocPartsDepend(a, walk) {
 				return true
 			}
+		case *ssa.Alloc:
+			// the address of a local flows on: what is stored in the local is a dependency too
+			for _, ref := range *x.Referrers() {
+				if st, ok := ref.(*ssa.Store); ok && st.Addr == ssa.Value(x) && walk(st.Val) {
+					return true
+				}
+			}
+			return allocPartsDepend(x, walk)
 		case *ssa.Parameter, *ssa.Const, *ssa.Global, *ssa.FreeVar, *ssa.Function, *ssa.Builtin:
 			return false
 		}
